@@ -4,11 +4,12 @@
 WT=$1; SD=$2
 cd $WT || exit 9
 git checkout -q -- . ; git clean -fq -- src/PseudoNetCDF/testcase
-echo "== demo on clean tree"; PYTHONPATH=$WT/src /venv/bin/python -W ignore $SD/demo.py > /tmp/vs.out 2>&1; echo "exit=$? $(tail -1 /tmp/vs.out)"
+echo "== demo on clean tree"; PYTHONPATH=$WT/src /venv/bin/python -W ignore $SD/demo.py > /tmp/vs.$$.out 2>&1; echo "exit=$? $(tail -1 /tmp/vs.$$.out)"
 git apply --check $SD/patch.diff || { echo "PATCH DOES NOT APPLY"; exit 8; }
 git apply $SD/patch.diff
-echo "== suite with patch"; PYTHONPATH=$WT/src /venv/bin/python -m pytest -q -p no:cacheprovider --timeout=900 src/PseudoNetCDF/test 2>&1 | grep -E "^FAILED|passed|failed" | sed 's/ - .*//' | sort > /tmp/vs.suite; cat /tmp/vs.suite | tail -1; grep -c FAILED /tmp/vs.suite
+echo "== suite with patch"; PYTHONPATH=$WT/src /venv/bin/python -m pytest -q -p no:cacheprovider --timeout=900 src/PseudoNetCDF/test 2>&1 | grep -E "^FAILED|passed|failed" | sed 's/ - .*//' | sort > /tmp/vs.$$.suite; grep -E 'passed|failed' /tmp/vs.$$.suite | grep -v FAILED | tail -1; grep -c FAILED /tmp/vs.$$.suite
 git clean -fq -- src/PseudoNetCDF/testcase
-echo "== demo with patch"; PYTHONPATH=$WT/src /venv/bin/python -W ignore $SD/demo.py > /tmp/vs.out 2>&1; echo "exit=$? $(tail -1 /tmp/vs.out)"
+echo "== demo with patch"; PYTHONPATH=$WT/src /venv/bin/python -W ignore $SD/demo.py > /tmp/vs.$$.out 2>&1; echo "exit=$? $(tail -1 /tmp/vs.$$.out)"
 git checkout -q -- .
 git status --short | grep -v "^??" 
+rm -f /tmp/vs.$$.out /tmp/vs.$$.suite
